@@ -32,12 +32,14 @@ ThreadAct(e) ==
 TraceNext == \/ /\ l <= Len(Traces[tid])
                 /\ LET e == Traces[tid][l] IN
                      IF e.t = "peer" THEN PeerReply(e.r)
-                     ELSE /\ e.t \in Clients
+                     ELSE /\ e.t \in Threads
                           /\ ThreadAct(e)
                           /\ (e.op \in {"trylock", "release", "recv"}) => recvlock' = e.recvlock
                 /\ l' = l + 1
                 /\ UNCHANGED tid
-             \/ /\ \E t \in Clients : PopCb(t)
+             \/ /\ \E t \in Threads : PopCb(t)
+                /\ UNCHANGED <<tid, l>>
+             \/ /\ \E t \in Pool : PoolEnter(t)          \* entering the condition's lock is not an event either
                 /\ UNCHANGED <<tid, l>>
 
 TraceSpec == TraceInit /\ [][TraceNext]_<<vars, tid, l>>
